@@ -114,7 +114,11 @@ class RunMonitor:
         self.max_consec_noeval = 0
         self.flags = set()
         self.monitor_errors = []
-        self.rng = np.random.default_rng(int(spec["options"].get("random_seed", 0)) + 7)
+        try:
+            sd_ = int(spec["options"].get("random_seed") or 0)
+        except (TypeError, ValueError):
+            sd_ = 0
+        self.rng = np.random.default_rng(sd_ + 7)
 
     # ------------------------------------------------------------------ utils
     def c(self, name, n=1):
